@@ -45,7 +45,7 @@ def execute_guarded(mod, case, wall=None, **kw):
     raise AssertionError
 
 
-def minimise_violation(mod, case, key):
+def minimise_violation(mod, case, key, known=False):
     from .shrink import minimise
 
     def same(cand):
@@ -55,6 +55,9 @@ def minimise_violation(mod, case, key):
     steps = getattr(mod, "shrink_steps", None)
     if steps is None:
         return case, 0
+    if known:
+        # a listed finding: its replay file is only an illustration, do not spend the batch's time on it
+        return minimise(case, steps, same, max_evals=40, max_seconds=5.0)
     return minimise(case, steps, same, max_evals=getattr(mod, "SHRINK_EVALS", 300), max_seconds=getattr(mod, "SHRINK_SECONDS", 30.0))
 
 
@@ -92,6 +95,9 @@ def run_shard(job):
         "nontrivial_runs": 0, "extra": {},
     }
     sigs = set()
+    from . import findings as _F0
+
+    known_findings = _F0.load()
     indices = job.get("indices")
     it = indices if indices is not None else range(w, n, K)
     if hasattr(mod, "setup_worker"):
@@ -132,7 +138,9 @@ def run_shard(job):
             slot = out["violations"].get(key)
             if slot is None:
                 try:
-                    mcase, evals = minimise_violation(mod, case, key)
+                    from . import findings as _F
+
+                    mcase, evals = minimise_violation(mod, case, key, known=_F.classify(prop, v["sig"], known_findings) is not None)
                     rep = make_replay(mod, prop, mcase, v, run_seed, i, case, evals, orig_res=res)
                 except Exception as ex:
                     out["harness_errors"].append({"index": i, "error": "minimise: " + repr(ex), "tb": traceback.format_exc()[-1500:]})
